@@ -26,6 +26,10 @@ CHECKS = {
             "Decides the interference-freedom clause for every interleaving at once: threads holding only shared references can affect each other only through interior-mutable state, so the check inventories every such cell (4 today; a new one is a violation), finds every write site, and reports every public entry point callable with shared references (751 analysed) that can reach a write. The read-only API (iterators, searches, queries, parallel adaptors, transpose) reaches none - that is the guarded regression surface; the 24 serialisation entry points that do write are genuine and listed as known findings. A bracket rule proves that a temporary switch of the store-wide serialisation mode is restored on every path to a return.",
             "trusts rustc's aliasing rules (no unsafe aliasing; the crate has one unused unsafe fn), the over-approximated call graph, and std/rayon; which interleavings are harmful among the writing entries is not decided - they are all reported",
             "DESIGN.md section 4 C20, A1, A3, A4", "mir"),
+    "C05": ("other", "table agreement between writer field/tag literals and reader schemas (syn AST), sibling-expression agreement for id/temp-id fallbacks, must-call rules for temp-id readers and dirty flags",
+            "Decides the schema-level necessary conditions of the JSON round trip for every store: each of the 8 writer/reader pairs agrees on field names and required fields, every selector arm writes its own variant name as @type and exactly the fields SelectorJson expects (9 arms), SelectorJson converts to the same-named builder variant, every id/temp-id fallback reads both identifiers from the same item (11 sites), the two streaming visitors still map temporary ids back and re-create gaps, and every mutation callback of a stand-off dataset marks it changed so that save() rewrites the file. Value fidelity and byte-identical re-serialisation are not decided.",
+            "trusts syn and serde's derive semantics (rename/alias/default); values are not compared",
+            "DESIGN.md section 4 C05, A8, A9", "syn"),
 }
 
 NA = {
